@@ -22,6 +22,8 @@
 //          Crash     any other fatal signal, std::terminate, or an exception not derived from std::exception
 //          Hang      2 s of CPU time (or 120 s wall) in one attempt
 //          HugeAlloc a single request, or the live total, above the cap (256 MiB)
+//          SizeMismatch a heap block was handed to the sized operator delete (std::allocator::deallocate(p, n)) with a size
+//                    other than the one it was allocated with - in ANY mode, accepted or rejected (undefined behaviour)
 //          Leak      exception thrown and live heap blocks not back to the level before the attempt (repeated 3x to
 //                    exclude one-time lazy initialisation)
 #include "guardbuf.hpp"
@@ -716,8 +718,8 @@ static void build_catalogue(bool thorough) {
 // ------------------------------------------------------------------------------------------------------------
 enum Mode { M_FULL = 0, M_PREFIX = 1, M_CORRUPT = 2 };
 static const char* MODE[] = {"full", "prefix", "corrupt"};
-enum Outcome { O_NONE = 0, O_OK, O_THROW, O_SAME, O_DIFFERENT, O_USABLE, O_OOB, O_CRASH, O_HANG, O_HUGE, O_LEAK };
-static const char* OUTCOME[] = {"None", "Ok", "Throw", "Same", "Different", "Usable", "OOB", "Crash", "Hang", "HugeAlloc", "Leak"};
+enum Outcome { O_NONE = 0, O_OK, O_THROW, O_SAME, O_DIFFERENT, O_USABLE, O_OOB, O_CRASH, O_HANG, O_HUGE, O_LEAK, O_SIZE };
+static const char* OUTCOME[] = {"None", "Ok", "Throw", "Same", "Different", "Usable", "OOB", "Crash", "Hang", "HugeAlloc", "Leak", "SizeMismatch"};
 
 struct Attempt { uint8_t path, mode; uint32_t n, pos; uint8_t val; };
 struct Result { uint8_t outcome, stage; int32_t off; int32_t leak; uint64_t digest; char what[96]; };
@@ -797,7 +799,7 @@ static void run_attempt(const Image& im, const std::vector<Attempt>& at, int idx
     const size_t n = a.mode == M_PREFIX ? a.n : im.bytes.size();
     uint8_t* p = g_gb.place(im.bytes.data(), n);
     if (a.mode == M_CORRUPT) p[a.pos] = a.val;
-    gb::g_huge = 0; gb::g_smashed = 0; gb::g_base_bytes = gb::g_bytes; g_report_huge = (a.mode != M_CORRUPT || im.capCorrupt);
+    gb::g_huge = 0; gb::g_smashed = 0; gb::g_mismatch = 0; gb::g_base_bytes = gb::g_bytes; g_report_huge = (a.mode != M_CORRUPT || im.capCorrupt);
     const long blocks0 = gb::g_blocks;
     int outcome = O_NONE; uint64_t dg = 0; int stage = ST_DONE;
     r.what[0] = 0;
@@ -817,6 +819,11 @@ static void run_attempt(const Image& im, const std::vector<Attempt>& at, int idx
     const long leak = gb::g_blocks - blocks0;
     r.stage = (uint8_t)stage; r.digest = dg; r.leak = (int32_t)leak; r.off = 0;
     if (gb::g_smashed || !gb::heap_intact()) { r.outcome = O_OOB; set_what(r, "heap block overrun (canary)"); r.off = -1; g_sh->cur = idx; _exit(42); }
+    if (gb::g_mismatch) {   // whatever else happened: a block was released with a size it was not allocated with
+      r.outcome = O_SIZE; r.stage = (uint8_t)stage;
+      snprintf(r.what, sizeof r.what, "block of %zu bytes deallocated as %zu bytes", (size_t)gb::g_mismatch_alloc, (size_t)gb::g_mismatch_dealloc);
+      return;
+    }
     if (gb::g_huge && (a.mode != M_CORRUPT || im.capCorrupt)) { r.outcome = O_HUGE; snprintf(r.what, sizeof r.what, "request %zu", (size_t)gb::g_huge_req); return; }
     r.outcome = (uint8_t)outcome;
     if (leak <= 0) return;          // balanced
@@ -830,13 +837,13 @@ static void child_main(const Image& im, const std::vector<Attempt>& at, int star
   g_sh->cur = -1;
   for (size_t pi = 0; pi < im.paths.size(); pi++) {
     if (start <= (int)pi) continue;                       // the reference attempt itself has not run yet
-    if (g_sh->res[pi].outcome != O_OK) continue;
+    if (g_sh->res[pi].outcome != O_OK && g_sh->res[pi].outcome != O_SIZE) continue;
     try { uint8_t* p = g_gb.place(im.bytes.data(), im.bytes.size()); arm_timer(); (void)im.paths[pi].fn(p, im.bytes.size()); } catch (...) {}
   }
   for (int i = start; i < (int)at.size(); i++) {
     g_sh->cur = i;
     run_attempt(im, at, i, ref);
-    if (at[i].mode == M_FULL && g_sh->res[i].outcome == O_OK) ref[at[i].path] = g_sh->res[i].digest;
+    if (at[i].mode == M_FULL && (g_sh->res[i].outcome == O_OK || (g_sh->res[i].outcome == O_SIZE && g_sh->res[i].digest))) ref[at[i].path] = g_sh->res[i].digest;
   }
   g_sh->finished = 1;
   vt::child_exit(0);
